@@ -400,15 +400,15 @@ Definition removes (l : list Z) (s : st) : st := fold_left (fun s r => remove_rx
 Lemma removes_part : forall l s D, Part s D ->
   Part (removes l s) D /\ rids (removes l s) = rids s /\ rule (removes l s) = rule s /\
   (forall r', rin (removes l s) r' = rin s r' && negb (memz r' l)) /\
-  (forall g, In g (glist (removes l s)) -> In g (glist s)) /\ gid (removes l s) = gid s.
+  (forall g, In g (glist (removes l s)) -> In g (glist s)) /\ gid (removes l s) = gid s /\ nextg (removes l s) = nextg s.
 Proof.
   induction l as [|r l IH]; intros s D P; [cbn|change (removes (r :: l) s) with (removes l (remove_rxn r false s))].
-  - split; [exact P|]. split; [reflexivity|]. split; [reflexivity|]. split; [|split; [auto|reflexivity]].
+  - split; [exact P|]. split; [reflexivity|]. split; [reflexivity|]. split; [|split; [auto|split; reflexivity]].
     intros r'. rewrite andb_true_r. reflexivity.
   - assert (Hf : false = true -> forall r', rin s r' = true -> D r') by discriminate.
     destruct (remove_rxn_part r false D s P Hf) as [P1 [A1 [A2 [A3 [A4 [A5 [A6 A7]]]]]]].
-    destruct (IH _ _ P1) as [P2 [C1 [C2 [C3 [C4 C5]]]]].
-    split; [exact P2|]. split; [congruence|]. split; [congruence|]. split; [|split; [auto|congruence]].
+    destruct (IH _ _ P1) as [P2 [C1 [C2 [C3 [C4 [C5 C6]]]]]].
+    split; [exact P2|]. split; [congruence|]. split; [congruence|]. split; [|split; [auto|split; congruence]].
     intros r'. rewrite C3, A6. unfold memz. cbn [existsb]. destruct (r' =? r); cbn [negb orb]; rewrite ?andb_false_r, ?andb_true_r; reflexivity.
 Qed.
 
@@ -475,7 +475,8 @@ Record RL (s0 : st) (d1 : list (Z * Z)) (s : st) (rem tou : list Z) : Prop := mk
   rl_gid : forall g, In g (glist s0) -> gid s g = gid s0 g \/ (In (gid s0 g, gid s g) d1 /\ gid s0 g <> gid s g);
   rl_rem : forall g, In g rem -> In g (glist s0) /\ gid s g = gid s0 g /\ In g tou /\
                                  exists v, In (gid s0 g, v) d1 /\ v <> gid s0 g;
-  rl_tou : forall k v g, In (k, v) d1 -> k <> v -> In g (glist s0) -> gid s0 g = k -> In g tou }.
+  rl_tou : forall k v g, In (k, v) d1 -> k <> v -> In g (glist s0) -> gid s0 g = k -> In g tou;
+  rl_tin : forall g, In g tou -> In g (glist s0) }.
 
 Lemma keys_app : forall a b, keys (a ++ b) = keys a ++ keys b.
 Proof. intros. unfold keys. apply map_app. Qed.
@@ -490,7 +491,7 @@ Proof.
   - cbn in H. inversion H; subst. rewrite app_nil_r. exact R.
   - assert (Eapp : d1 ++ (o, n) :: rest = (d1 ++ [(o, n)]) ++ rest) by (rewrite <- app_assoc; reflexivity).
     rewrite Eapp in *.
-    destruct R as [Rs Ro Ri Rg Rr Rt]. pose proof Rs as [S1 [S2 [S3 [S4 [S5 [S6 [S7 S8]]]]]]].
+    destruct R as [Rs Ro Ri Rg Rr Rt Rn]. pose proof Rs as [S1 [S2 [S3 [S4 [S5 [S6 [S7 S8]]]]]]].
     assert (F1 : ~ In o (keys d1)).
     { rewrite !keys_app in Hk. cbn in Hk. rewrite <- app_assoc in Hk. cbn in Hk.
       apply NoDup_remove_2 in Hk. intros Hi. apply Hk. apply in_or_app. left. exact Hi. }
@@ -534,6 +535,7 @@ Proof.
                  exists v. split; [apply Hmono, V1|exact V2].
            ++ apply Ttou; [intros g2 Hg2; right; exact Hg2|]. intros g2 Hg2 E2 _. left.
               apply (NoDup_map_inj (gid s0) (glist s0)); try assumption. congruence.
+           ++ intros g2 [<-|Hg2]; [exact G1|apply Rn, Hg2].
       * (* rename *)
         assert (Hon : n <> o).
         { intros ->. rewrite Elo in Eln. discriminate. }
@@ -553,6 +555,7 @@ Proof.
            exists v. split; [apply Hmono, V1|exact V2].
         -- apply Ttou; [intros g2 Hg2; right; exact Hg2|]. intros g2 Hg2 E2 _. left.
            apply (NoDup_map_inj (gid s0) (glist s0)); try assumption. congruence.
+        -- intros g2 [<-|Hg2]; [exact G1|apply Rn, Hg2].
     + (* no such gene *)
       apply (IH (d1 ++ [(o, n)]) s0 s rem tou); try assumption.
       constructor; try assumption.
@@ -590,7 +593,7 @@ Proof.
     - unfold same_but_gid. repeat split; reflexivity.
     - apply (b_ids s B). }
   pose proof (rename_loop_spec d [] s s [] [] s1 rem tou Hk (no_chain_spec d Hc) (b_ids s B) R0 E) as R.
-  cbn [app] in R. destruct R as [[S1 [S2 [S3 [S4 [S5 [S6 [S7 S8]]]]]]] Ro Ri Rg Rr Rt].
+  cbn [app] in R. destruct R as [[S1 [S2 [S3 [S4 [S5 [S6 [S7 S8]]]]]]] Ro Ri Rg Rr Rt Rn].
   set (recompute := fun r => existsb (fun g => gback s g r) tou).
   set (s2 := rename_rules d recompute s1).
   assert (B2 : Base s2).
@@ -622,15 +625,46 @@ Proof.
     congruence.
 Qed.
 
+(* ---------- the repaired rename_genes keeps the invariant for every dictionary ---------- *)
+Lemma rename_loop_ids : forall d s rem tou s' rem' tou', rename_loop d s rem tou = (s', rem', tou') ->
+  NoDup (map (gid s) (glist s)) -> same_but_gid s s' /\ NoDup (map (gid s') (glist s')).
+Proof.
+  induction d as [|[o n] d IH]; intros s rem tou s' rem' tou' E Hn; cbn in E.
+  - inversion E; subst. split; [unfold same_but_gid; repeat split; reflexivity|exact Hn].
+  - destruct (lookup s o) as [g|] eqn:Elo; [|apply (IH _ _ _ _ _ _ E Hn)].
+    destruct (lookup s n) as [g'|] eqn:Eln; [destruct (g =? g'); apply (IH _ _ _ _ _ _ E Hn)|].
+    assert (Hn' : NoDup (map (gid (set_gid g n s)) (glist (set_gid g n s)))).
+    { unfold set_gid. cbn [gid glist]. apply NoDup_map_upd; [exact Hn|]. intros x Hx. apply (lookup_none _ _ Eln x Hx). }
+    destruct (IH _ _ _ _ _ _ E Hn') as [[S1 [S2 [S3 [S4 [S5 [S6 [S7 S8]]]]]]] H2]. split; [|exact H2].
+    unfold set_gid in *. cbn [rids rin rule rgenes glist gid gback gmod nextg] in *. unfold same_but_gid. repeat split; assumption.
+Qed.
+
+Theorem rename_genes_fixed_inv : forall d s, GInv s -> GInv (rename_genes_fixed d s).
+Proof.
+  intros d s [B _]. unfold rename_genes_fixed.
+  destruct (rename_loop d s [] []) as [[s1 rem] tou] eqn:E.
+  destruct (rename_loop_ids _ _ _ _ _ _ _ E (b_ids s B)) as [[S1 [S2 [S3 [S4 [S5 [S6 [S7 S8]]]]]]] Hn].
+  set (s2 := rename_rules d (fun r => existsb (fun g => gback s g r) tou) s1).
+  assert (B2 : Base s2).
+  { destruct B as [B1 B2 B3 B4 B5 B6]. constructor; unfold s2, rename_rules; cbn [rids rin rule rgenes glist gid gback gmod nextg];
+      try exact Hn; rewrite ?S1, ?S2, ?S4, ?S5, ?S6, ?S7, ?S8; assumption. }
+  destruct (repair_inv s2 B2) as [G3 _].
+  apply drop_unref; [exact G3|].
+  intros g r Hg Hrin Hin. apply filter_In in Hg as [_ Hnb].
+  destruct G3 as [B3 HD3]. destruct (HD3 r I Hrin) as [G1 _]. destruct (G1 g Hin) as [_ Hb].
+  rewrite (no_back_spec _ _ Hnb r (b_univ _ B3 r Hrin)) in Hb. discriminate.
+Qed.
+
 (* ---------- every operation, every history ---------- *)
 Theorem step_GInv : forall s o, GInv s -> op_ok s o -> GInv (fst (step s o)).
 Proof.
-  intros s o H Hok. unfold op_ok in Hok. destruct o as [r t|r|r orph|l rr|d|]; cbn [step fst op_okb] in *.
+  intros s o H Hok. unfold op_ok in Hok. destruct o as [r t|r|r orph|l rr|d|d|]; cbn [step fst op_okb] in *.
   - apply set_rule_inv, H.
   - apply add_rxn_inv; [exact H|apply memz_In, Hok].
   - apply remove_rxn_inv, H.
   - apply remove_genes_inv, H.
   - apply andb_true_iff in Hok as [H1 H2]. apply rename_genes_inv; [exact H|apply nodupb_NoDup, H1|exact H2].
+  - apply rename_genes_fixed_inv, H.
   - apply repair_GInv, H.
 Qed.
 
@@ -681,7 +715,7 @@ Qed.
 
 Lemma step_rids : forall s o, rids (fst (step s o)) = rids s.
 Proof.
-  intros s o. destruct o as [r t|r|r orph|l rr|d|]; cbn [step fst].
+  intros s o. destruct o as [r t|r|r orph|l rr|d|d|]; cbn [step fst].
   - unfold set_rule. rewrite update_genes_rids. reflexivity.
   - unfold add_rxn. destruct (rin s r); [reflexivity|]. rewrite update_genes_rids. reflexivity.
   - apply remove_rxn_rids.
@@ -690,6 +724,8 @@ Proof.
       fold (removes tg s1); fold (updates rv (removes tg s1)) end.
     rewrite updates_rids, removes_rids. reflexivity.
   - unfold rename_genes. destruct (rename_loop d s [] []) as [[s1 rem] tou] eqn:E. unfold drop_genes. proj.
+    rewrite repair_rids. unfold rename_rules. proj. apply (rename_loop_rids _ _ _ _ _ _ _ E).
+  - unfold rename_genes_fixed. destruct (rename_loop d s [] []) as [[s1 rem] tou] eqn:E. unfold drop_genes. proj.
     rewrite repair_rids. unfold rename_rules. proj. apply (rename_loop_rids _ _ _ _ _ _ _ E).
   - apply repair_rids.
 Qed.
